@@ -14,7 +14,7 @@ from ._pairs import V
 PID = "C17"
 LEVEL = "model_checking"
 WITNESSES = ["ks_strictly_between_0_and_1", "ks_full_stress", "cold_coefficient_partial", "heat_coefficient_zero", "gdd_clipped_low", "gdd_clipped_high",
-             "growth_curve_decay_stage", "decline_curve_reaches_zero", "inverse_checked", "fco2_above_1", "fco2_below_1", "fco2_season_reset_site", "fco2_overridden_sink_strength", "aeration_stress_active", "aeration_switched_off_crop", "growth_curve_starts_in_decay_stage"]
+             "growth_curve_decay_stage", "decline_curve_reaches_zero", "inverse_checked", "fco2_above_1", "fco2_below_1", "fco2_season_reset_site", "fco2_overridden_sink_strength", "aeration_stress_active", "aeration_switched_off_crop", "growth_curve_starts_in_decay_stage", "fco2_overridden_water_productivity"]
 NONTRIVIAL = WITNESSES
 TOL = 1e-12
 
@@ -194,8 +194,13 @@ def run(scn):
             concs += [280, 320, 360, 369.0, 370.0, 380, 420, 480, 520, 530, 545, 547, 548, 552, 553, 556, 580, 650, 900, 1200, 1800, 1999.0, 2001.0, 2200]
         concs = sorted(set(concs))
         fsinks = [None, 1.0] if not fine else [None, 0.0, 0.2, 0.8, 1.0]
-        for fs in fsinks:
+        # ... and for water productivities on both sides of the C3 / C4 weighting (WP <= 20: full, >= 40: no CO2 response)
+        variants = [(fs, None) for fs in fsinks] + [(None, wp) for wp in ((15.0, 45.0) if not fine else (10.0, 20.0, 30.0, 40.0, 45.0, 60.0))]
+        for fs, wp in variants:
             kw = {} if fs is None else {"fsink": fs}
+            if wp is not None:
+                kw["WP"] = wp
+                hit("fco2_overridden_water_productivity")
             spec = A.catalogue_spec(name, word="warm", cropkw=kw, co2={"constant_conc": True, "current_concentration": 400.0})
             try:
                 m = S.make_model(spec)
